@@ -196,6 +196,46 @@ func runC19(c *Ctx, d c19Desc) {
 		sup.Exec(ctx, &supvmodel.ExecRequest{Domain: "runtime", Name: "done", Path: "/bin/sh", Args: []string{"-c", "exit 4"}})
 		time.Sleep(300 * time.Millisecond)
 		c.Check(sup.Kill(ctx, &supvmodel.KillRequest{Domain: "runtime", Name: "done", Deadline: time.Now().Add(time.Second)}) == nil, "kill_exited_ok", "C19/kill-exited-fails", "Kill of an already exited process failed", nil)
+		// exit status 137 / 143 are exit statuses, not signals
+		for _, n := range []int{130, 137, 143} {
+			sup.Exec(ctx, &supvmodel.ExecRequest{Domain: "runtime", Name: fmt.Sprintf("exit%d", n), Path: "/bin/sh", Args: []string{"-c", fmt.Sprintf("exit %d", n)}})
+		}
+		// a Kill that stays pending (a descendant outside the process group keeps the output pipe open, so the
+		// termination is collected late) must not hold up operations on OTHER processes
+		sup.Exec(ctx, &supvmodel.ExecRequest{Domain: "runtime", Name: "slowkill", Path: "/bin/sh", Args: []string{"-c", "setsid sleep 1.2 & while :; do sleep 0.05; done"}, StdoutWriter: &lockedBuf{}, StderrWriter: &lockedBuf{}})
+		mb := filepath.Join(dir, "other")
+		sup.Exec(ctx, &supvmodel.ExecRequest{Domain: "runtime", Name: "otherB", Path: "/bin/sh", Args: []string{"-c", "echo $$ > " + mb + ".b; while :; do sleep 0.05; done"}})
+		sup.Exec(ctx, &supvmodel.ExecRequest{Domain: "runtime", Name: "otherC", Path: "/bin/sh", Args: []string{"-c", "echo $$ > " + mb + ".c; while :; do sleep 0.05; done"}})
+		readPid(mb + ".b")
+		readPid(mb + ".c")
+		time.Sleep(50 * time.Millisecond)
+		killDone := make(chan error, 1)
+		tk := time.Now()
+		go func() {
+			killDone <- sup.Kill(ctx, &supvmodel.KillRequest{Domain: "runtime", Name: "slowkill", Deadline: time.Now().Add(4 * time.Second)})
+		}()
+		time.Sleep(150 * time.Millisecond) // the kill of "slowkill" is pending now (its pipe stays open for ~1.2 s)
+		pendingKill := true
+		select {
+		case <-killDone:
+			pendingKill = false
+		default:
+		}
+		t1 := time.Now()
+		errT := sup.Terminate(ctx, &supvmodel.TerminateRequest{Domain: "runtime", Name: "otherB"})
+		dT := time.Since(t1)
+		t2 := time.Now()
+		errK := sup.Kill(ctx, &supvmodel.KillRequest{Domain: "runtime", Name: "otherC", Deadline: time.Now().Add(800 * time.Millisecond)})
+		dK := time.Since(t2)
+		if pendingKill {
+			c.Check(errT == nil && dT < 500*time.Millisecond, "terminate_does_not_wait", "C19/terminate-blocked-by-other-kill", fmt.Sprintf("Terminate of another process took %.0f ms (err %v) while a Kill was pending", float64(dT)/1e6, errT), nil)
+			c.Check(errK == nil && dK < 700*time.Millisecond, "kill_independent_of_other_kill", "C19/kill-blocked-by-other-kill", fmt.Sprintf("Kill of another process took %.0f ms (err %v) while a Kill was pending", float64(dK)/1e6, errK), nil)
+		} else {
+			c.Counter("slow_kill_was_not_slow", 1)
+		}
+		<-killDone
+		_ = tk
+		sup.Kill(ctx, &supvmodel.KillRequest{Domain: "runtime", Name: "otherB", Deadline: time.Now().Add(2 * time.Second)})
 		// a leader that exits 0 while a forked child keeps its output pipe open for a while
 		sup.Exec(ctx, &supvmodel.ExecRequest{Domain: "runtime", Name: "orphan", Path: "/bin/sh", Args: []string{"-c", "sleep 0.9 & echo hi; exit 0"}, StdoutWriter: &lockedBuf{}, StderrWriter: &lockedBuf{}})
 		for i := 0; i < 1500; i++ {
@@ -213,6 +253,11 @@ func runC19(c *Ctx, d c19Desc) {
 			e := events["orphan"][0].Event
 			c.Check(e.ExitStatus != nil && *e.ExitStatus == 0 && e.Signo == nil, "exit_status_truthful", "C19/exit-status/orphan", "leader exited 0 (child still holding the output pipe) but another status was reported", fmt.Sprint(e.ExitStatus, e.Signo))
 		}
+		for _, n := range []int32{130, 137, 143} {
+			evs := events[fmt.Sprintf("exit%d", n)]
+			ok := len(evs) == 1 && evs[0].Event.ExitStatus != nil && *evs[0].Event.ExitStatus == n && evs[0].Event.Signo == nil
+			c.Check(ok, "exit_status_truthful", fmt.Sprintf("C19/exit-status/%d", n), fmt.Sprintf("'exit %d' was not reported as exit status %d", n, n), nil)
+		}
 		c.Check(len(events["noexec"]) == 0, "no_event_without_process", "C19/event-for-failed-exec", "termination event for a process that never started", nil)
 		c.Check(len(events["done"]) == 1 && events["done"][0].Event.ExitStatus != nil && *events["done"][0].Event.ExitStatus == 4, "exit_status_truthful", "C19/exit-status", "exit status of 'exit 4' not reported truthfully", nil)
 		c.Check(len(events["live"]) == 1 && events["live"][0].Event.Signo != nil && *events["live"][0].Event.Signo == 9, "signal_truthful", "C19/kill-signal", "SIGKILL not reported as signal 9", nil)
@@ -221,7 +266,7 @@ func runC19(c *Ctx, d c19Desc) {
 		return
 	}
 
-	kinds := []string{"exit0", "exit3", "sigsegv", "sigkill", "trapterm", "ignoreterm", "forks", "termchild", "quick", "orphan0", "orphan3"}
+	kinds := []string{"exit0", "exit3", "sigsegv", "sigkill", "trapterm", "ignoreterm", "forks", "termchild", "quick", "orphan0", "orphan3", "exit130", "exit137", "exit143", "exit255"}
 	var procs []*c19Proc
 	for i := 0; i < d.N; i++ {
 		k := kinds[r.Intn(len(kinds))]
@@ -239,6 +284,10 @@ func runC19(c *Ctx, d c19Desc) {
 			p.script, p.wantSig, p.mustEnd = pre+delay+"kill -KILL $$", []int32{9}, true
 		case "quick":
 			p.script, p.wantCode, p.mustEnd = "exit 5", []int32{5}, true
+		case "exit130", "exit137", "exit143", "exit255":
+			// exit statuses that a shell would print for a signal death are still exit statuses
+			n, _ := strconv.Atoi(strings.TrimPrefix(k, "exit"))
+			p.script, p.wantCode, p.mustEnd = pre+delay+fmt.Sprintf("exit %d", n), []int32{int32(n)}, true
 		case "orphan0", "orphan3":
 			// the leader exits while a forked child still holds its stdout/stderr: the status
 			// reported must be the leader's own, however long the output pipe stays open
